@@ -58,16 +58,50 @@ class Ctx:
         self.max_decisions = max_decisions
         self.forks = {}  # value-fork call sites -> count (diagnostics)
         self.has_fp = False
+        self.vars = {}  # name -> z3 constant (inputs and fresh variables), for cvc5 models
+        self.fp_z3_budget_ms = 400
+        self.fp_tlimit_s = 60
+        self._sat_model = None
 
     # -- solver plumbing ---------------------------------------------------
     def _check(self, *extra):
+        """sat/unsat of pc & extra.  Bit-vector queries: z3 (incremental).  When FP terms are
+        around z3 gets a short budget first and the query then goes to the cvc5 binary."""
         self.queries += 1
         t = time.time()
-        r = self.solver.check(*extra)
+        self._sat_model = None
+        if self.has_fp:
+            self.solver.set("timeout", self.fp_z3_budget_ms)
+        try:
+            r = self.solver.check(*extra)
+        finally:
+            if self.has_fp:
+                self.solver.set("timeout", self.timeout_ms)
         self.qtime += time.time() - t
+        if r == z3.sat:
+            self._sat_model = self.solver.model()
+        if r == z3.unknown and self.has_fp:
+            from . import fpsolve
+            if fpsolve.CVC5 is not None:
+                st, vals = fpsolve.check(list(self.pc) + list(extra), sorted(self.vars),
+                                         tlimit_s=self.fp_tlimit_s)
+                if st == "unsat":
+                    return z3.unsat
+                if st == "sat":
+                    self._sat_model = PseudoModel(self.vars, vals)
+                    return z3.sat
+            t = time.time()
+            r = self.solver.check(*extra)
+            self.qtime += time.time() - t
+            if r == z3.sat:
+                self._sat_model = self.solver.model()
         if r == z3.unknown:
             raise Inconclusive("solver unknown: " + self.solver.reason_unknown())
         return r
+
+    def sat_model(self):
+        """model of the last satisfiable _check"""
+        return self._sat_model
 
     def add(self, cond):
         self.pc.append(cond)
@@ -75,7 +109,9 @@ class Ctx:
 
     def fresh(self, tag, sort_bits):
         self.nfresh += 1
-        return z3.BitVec(f"{tag}!{self.nfresh}", sort_bits)
+        v = z3.BitVec(f"{tag}!{self.nfresh}", sort_bits)
+        self.vars[str(v)] = v
+        return v
 
     def _model_says(self, cond):
         if self.model is None:
@@ -96,7 +132,7 @@ class Ctx:
             return True
         r = self._check(cond)
         if r == z3.sat:
-            self._last_model = self.solver.model()
+            self._last_model = self.sat_model()
             return True
         return False
 
@@ -126,11 +162,11 @@ class Ctx:
                 f_ok = True
                 t_ok = self._check(cond) == z3.sat
                 if t_ok:
-                    self.model = self.solver.model()
+                    self.model = self.sat_model()
             else:
                 t_ok = self._check(cond) == z3.sat
                 if t_ok:
-                    self.model = self.solver.model()
+                    self.model = self.sat_model()
                     f_ok = self._check(z3.Not(cond)) == z3.sat
                 else:
                     f_ok = True
@@ -158,8 +194,29 @@ class Ctx:
             return self.model
         if self._check() != z3.sat:
             raise Abort("infeasible path condition")
-        self.model = self.solver.model()
+        self.model = self.sat_model()
         return self.model
+
+
+class PseudoModel:
+    """model returned by cvc5: evaluation by substitution of every variable + simplification"""
+
+    def __init__(self, variables, vals):
+        self.subst = []
+        for name, var in variables.items():
+            v = vals.get(name)
+            srt = var.sort()
+            if z3.is_bool(var):
+                self.subst.append((var, z3.BoolVal(bool(v))))
+            elif z3.is_bv(var):
+                self.subst.append((var, z3.BitVecVal(v[1] if v else 0, srt.size())))
+            elif z3.is_fp(var):
+                bits = v[1] if v else 0
+                n = srt.ebits() + srt.sbits()
+                self.subst.append((var, z3.fpBVToFP(z3.BitVecVal(bits, n), srt)))
+
+    def eval(self, e, model_completion=True):
+        return z3.simplify(z3.substitute(e, *self.subst))
 
 
 def cur():
@@ -676,14 +733,15 @@ def tofloat(x):
         cur().has_fp = True
         e = x.e
         # convert from the narrowest bit-vector that provably holds the value
+        iv = (float(x.lo), float(x.hi))
         if z3.is_app_of(e, z3.Z3_OP_SIGN_EXT):
-            return mkfloat(z3.fpSignedToFP(RNE, e.arg(0), F64))
+            return mkfloat(z3.fpSignedToFP(RNE, e.arg(0), F64), iv)
         if z3.is_app_of(e, z3.Z3_OP_ZERO_EXT):
-            return mkfloat(z3.fpUnsignedToFP(RNE, e.arg(0), F64))
+            return mkfloat(z3.fpUnsignedToFP(RNE, e.arg(0), F64), iv)
         nb = max(abs(x.lo), abs(x.hi)).bit_length() + 1
         if nb < W:
-            return mkfloat(z3.fpSignedToFP(RNE, z3.Extract(nb - 1, 0, e), F64))
-        return mkfloat(z3.fpSignedToFP(RNE, e, F64))
+            return mkfloat(z3.fpSignedToFP(RNE, z3.Extract(nb - 1, 0, e), F64), iv)
+        return mkfloat(z3.fpSignedToFP(RNE, e, F64), iv)
     return float(x)
 
 
@@ -708,14 +766,14 @@ def fp(x):
     return z3.FPVal(float(x), F64)
 
 
-def mkfloat(e):
+def mkfloat(e, iv=None):
     e = z3.simplify(e)
     if z3.is_fp_value(e):
         return fpval_to_float(e)
     c = Ctx.cur
     if c is not None:
         c.has_fp = True
-    return SymFloat(e)
+    return SymFloat(e, iv)
 
 
 def fpval_to_float(v):
@@ -737,39 +795,89 @@ def _isreal(o):
     return isinstance(o, (int, float, SymBool))
 
 
+def _frng(x):
+    """conservative finite interval of a float-like, or None"""
+    if isinstance(x, SymFloat):
+        return x.iv
+    if isinstance(x, SymInt):
+        return (float(x.lo), float(x.hi))
+    if isinstance(x, SymBool):
+        return (0.0, 1.0)
+    try:
+        v = float(x)
+    except (OverflowError, ValueError):
+        return None
+    if v != v or v in (float("inf"), float("-inf")):
+        return None
+    return (v, v)
+
+
+def _widen(lo, hi):
+    """outward rounding slack for one IEEE operation"""
+    import math
+    if not (math.isfinite(lo) and math.isfinite(hi)) or max(abs(lo), abs(hi)) > 1e300:
+        return None
+    e = 2.0**-50
+    return (lo - abs(lo) * e - 5e-324, hi + abs(hi) * e + 5e-324)
+
+
+def _fiv(op, a, b):
+    ia, ib = _frng(a), _frng(b)
+    if ia is None or ib is None:
+        return None
+    try:
+        if op == "+":
+            return _widen(ia[0] + ib[0], ia[1] + ib[1])
+        if op == "-":
+            return _widen(ia[0] - ib[1], ia[1] - ib[0])
+        if op == "*":
+            c = [ia[0] * ib[0], ia[0] * ib[1], ia[1] * ib[0], ia[1] * ib[1]]
+            return _widen(min(c), max(c))
+        if op == "/":
+            if ib[0] <= 0.0 <= ib[1]:
+                return None
+            c = [ia[0] / ib[0], ia[0] / ib[1], ia[1] / ib[0], ia[1] / ib[1]]
+            return _widen(min(c), max(c))
+    except (OverflowError, ZeroDivisionError):
+        return None
+    return None
+
+
 class SymFloat:
     __class__ = property(lambda s: float)
 
-    def __init__(s, e):
+    def __init__(s, e, iv=None):
         s.e = e
+        s.iv = iv  # conservative finite interval (then the value is neither NaN nor inf)
 
     def __add__(s, o):
-        return mkfloat(z3.fpAdd(RNE, s.e, fp(o))) if _isreal(o) else NotImplemented
+        return mkfloat(z3.fpAdd(RNE, s.e, fp(o)), _fiv("+", s, o)) if _isreal(o) else NotImplemented
 
     __radd__ = __add__
 
     def __sub__(s, o):
-        return mkfloat(z3.fpSub(RNE, s.e, fp(o))) if _isreal(o) else NotImplemented
+        return mkfloat(z3.fpSub(RNE, s.e, fp(o)), _fiv("-", s, o)) if _isreal(o) else NotImplemented
 
     def __rsub__(s, o):
-        return mkfloat(z3.fpSub(RNE, fp(o), s.e)) if _isreal(o) else NotImplemented
+        return mkfloat(z3.fpSub(RNE, fp(o), s.e), _fiv("-", o, s)) if _isreal(o) else NotImplemented
 
     def __mul__(s, o):
-        return mkfloat(z3.fpMul(RNE, s.e, fp(o))) if _isreal(o) else NotImplemented
+        return mkfloat(z3.fpMul(RNE, s.e, fp(o)), _fiv("*", s, o)) if _isreal(o) else NotImplemented
 
     __rmul__ = __mul__
 
-    def _div(a, b):
-        bz = mkbool(z3.fpIsZero(b))
-        if bz:
-            raise ZeroDivisionError("float division by zero")
-        return mkfloat(z3.fpDiv(RNE, a, b))
+    def _div(a, b, iv=None, ib=None):
+        if not (ib is not None and not (ib[0] <= 0.0 <= ib[1])):
+            bz = mkbool(z3.fpIsZero(b))
+            if bz:
+                raise ZeroDivisionError("float division by zero")
+        return mkfloat(z3.fpDiv(RNE, a, b), iv)
 
     def __truediv__(s, o):
-        return SymFloat._div(s.e, fp(o)) if _isreal(o) else NotImplemented
+        return SymFloat._div(s.e, fp(o), _fiv("/", s, o), _frng(o)) if _isreal(o) else NotImplemented
 
     def __rtruediv__(s, o):
-        return SymFloat._div(fp(o), s.e) if _isreal(o) else NotImplemented
+        return SymFloat._div(fp(o), s.e, _fiv("/", o, s), s.iv) if _isreal(o) else NotImplemented
 
     def __floordiv__(s, o):
         raise Unsupported("float //")
@@ -777,13 +885,17 @@ class SymFloat:
     __rfloordiv__ = __mod__ = __rmod__ = __pow__ = __rpow__ = __divmod__ = __floordiv__
 
     def __neg__(s):
-        return mkfloat(z3.fpNeg(s.e))
+        return mkfloat(z3.fpNeg(s.e), None if s.iv is None else (-s.iv[1], -s.iv[0]))
 
     def __pos__(s):
         return s
 
     def __abs__(s):
-        return mkfloat(z3.fpAbs(s.e))
+        iv = None
+        if s.iv is not None:
+            iv = (0.0 if s.iv[0] <= 0 <= s.iv[1] else min(abs(s.iv[0]), abs(s.iv[1])),
+                  max(abs(s.iv[0]), abs(s.iv[1])))
+        return mkfloat(z3.fpAbs(s.e), iv)
 
     def __lt__(s, o):
         return mkbool(z3.fpLT(s.e, fp(o))) if _isreal(o) else NotImplemented
@@ -809,12 +921,18 @@ class SymFloat:
         return cur().branch(z3.Not(z3.fpIsZero(s.e)))
 
     def _toint(s, rm):
+        import math
+        lim = float(1 << (W - 2))
+        if s.iv is not None and -lim < s.iv[0] and s.iv[1] < lim:
+            # finite and in range by interval reasoning: no NaN/inf/overflow cases to split on
+            r = z3.fpRoundToIntegral(rm, s.e)
+            return mkint(z3.fpToSBV(RTZ, r, z3.BitVecSort(W)), math.floor(s.iv[0]) - 1,
+                         math.ceil(s.iv[1]) + 1)
         if mkbool(z3.fpIsNaN(s.e)):
             raise ValueError("cannot convert float NaN to integer")
         if mkbool(z3.fpIsInf(s.e)):
             raise OverflowError("cannot convert float infinity to integer")
         r = z3.fpRoundToIntegral(rm, s.e)
-        lim = float(1 << (W - 2))
         cur().ovf.append(z3.Not(z3.And(z3.fpLT(r, z3.FPVal(lim, F64)),
                                        z3.fpGT(r, z3.FPVal(-lim, F64)))))
         return mkint(z3.fpToSBV(RTZ, r, z3.BitVecSort(W)), -(1 << (W - 2)), 1 << (W - 2))
